@@ -17,7 +17,8 @@ Oracles:            SortedOrder  `lyds` lines (also with ops that are NOT in the
                                  re-insert, judged against a list model (SibModel): schema order, user order as established, data
                                  nodes before opaque nodes, lyd_find_sibling_first / _val / _opaq_next = scan
 Findings of this slice: lyds_merge_nodes2 read *next_p uninitialised (fixed /repo cefb23b, MERGE_REGRESS); lyd_dup appended duplicates
-behind existing instances outside the sorting tree (seed agent's finding, fixed /repo d989bef, DUP_REGRESS).
+behind existing instances outside the sorting tree (seed agent's finding, fixed /repo d989bef; follow-up 03a093d: the append path is kept
+for all further duplicates when the first one is alone; DUP_REGRESS).
 Not explored on purpose: an OPAQUE node moved among data nodes by lyd_insert_after/before (allowed by the API; lyd_find_sibling_opaq_next
 then asserts `opaque nodes are last`), lyd_insert_sibling of several nodes into instances that were appended UNSORTED as ordered input
 (lyds_merge_nodes2_among walks into NULL), LYD_DUP_NO_LYDS into a parent whose list already has a sorting tree (by contract of the flag).
@@ -387,6 +388,12 @@ DUP_REGRESS = [
     "lyds\tl2\tc0\t1\ti1 c3 c4 p2 i5 i2",
     "lyds\tstr\tc1\t1\ti0 i1 i2 c3 c4 c5 p0 d0 d0 d0 i9 i3",
     "lyds\tun\tt0\t1\ti1 i2 c3 c4 p0 i5",
+    # /repo 03a093d: from the third instance on the duplicates were inserted by a sorted search (d989bef), which reordered
+    # sources that are not sorted; they are appended again when the first duplicate is alone in the parent
+    "lyds\ti8\tc0\t1\tC4 C2 C0 p0 q2 i3",
+    "lyds\tl1\tc1\t1\tC4 C2 C0 C6 p2 d1 i3 i1",
+    "lyds\tstr\tt0\t1\tC4 C2 C0 p0 i3",
+    "lyds\ti8\tc2\t1\tC4 C2 C0 p0 i3",
 ]
 
 
@@ -429,17 +436,20 @@ class SeqModel:
                 self.tree = False
 
     def dup(self, xs, opt, after):
-        """lyd_dup() as fixed: the first duplicate by the default path, the second is appended iff the first is the only
-        instance and the last sibling, all others by the default path; NO_LYDS: all appended; lyd_dup_single: all default"""
+        """lyd_dup() as of /repo 03a093d: the first duplicate by the default path; if it is then the only instance and the last
+        sibling all the others are appended, otherwise the next one is treated like a first one again;
+        NO_LYDS: all appended; lyd_dup_single of each: all by the default path"""
         if opt in (1, 4):
             for x in xs:
                 self.append(x)
             return
-        for n, x in enumerate(xs):
-            if opt != 3 and n == 1 and len(self.seq) == 1 and not after:
+        fast = False
+        for x in xs:
+            if fast and opt != 3:
                 self.append(x)
             else:
                 self.insert(x)
+                fast = len(self.seq) == 1 and not after
 
 
 class SortedOrder:
